@@ -1796,7 +1796,7 @@ class Interp:
                     acc = self.lib.term_getitem(self, orig, idx, None, None) + op(
                         "loopsum_brk" if has_break else "loopsum", val - cur, lv, itt)
                     return self.lib.term_setitem(self, orig, idx, acc, None, None)
-            return op("tabulate", orig, idx, val, lv)
+            return op("tabulate", orig, idx, val, lv, itt)
         return op("loopfix", orig, fin, lv, s)
 
     def as_increment(self, fin, s) -> Optional[sp.Basic]:
@@ -1821,7 +1821,7 @@ class Interp:
             return fin.args[1], fin.args[2]
         if f == "tabulate" and fin.args[0] == s:
             # inner loop already tabulated on top of the carried array
-            return sp.Tuple(Str("inner"), fin.args[1], fin.args[3]), fin.args[2]
+            return sp.Tuple(Str("inner"), fin.args[1], fin.args[3], fin.args[4] if len(fin.args) > 4 else Str("?")), fin.args[2]
         if f == "ite":
             a = self.as_store(fin.args[1], s)
             b = self.as_store(fin.args[2], s)
